@@ -53,6 +53,9 @@ SIMPLE = {
     'set': Q('SET statement_timeout TO 5'), 'setrole': Q('SET ROLE r'), 'prepare': Q('PREPARE p AS SELECT 1'),
     'setlocal': Q('SET LOCAL x TO 1'), 'copyin': Q('COPY t FROM STDIN'), 'copyout': Q('COPY t TO STDOUT'), 'empty': Q(';'),
     'select2': Q('SELECT 2'), 'sleep': Q('SELECT pg_sleep(1)'), 'qt1': Q('SELECT * FROM t1'), 'qt2': Q('SELECT * FROM t2'), 'd': msg('d', b'1\n'), 'c': msg('c'), 'f': msg('f', b'stop\0'), 'multi': Q('BEGIN; SELECT 1'), 'sync': S, 'flush': H,
+    # replies around the 8 KiB relay threshold (see MockPg.big_rows), alone, in a multi-statement message, after a COPY in the same message
+    'bigsel': Q('SELECT bigrows'), 'hugesel': Q('SELECT hugerow'), 'multibig': Q('SELECT 1; SELECT hugerow; SELECT 2'),
+    'copyin_big': Q('COPY t FROM STDIN; SELECT bigrows'), 'copyin_sel': Q('COPY t FROM STDIN; SELECT 7'),
 }
 
 
@@ -106,6 +109,7 @@ def sym_code(body=b''):
 EXT = {'P?': sym_parse, 'B?': sym_bind, 'D?': sym_describe, 'C?': sym_close, 'E': lambda: conc_msg('E', E()),
        'Pbegin': lambda: conc_msg('Pbegin', P('', 'BEGIN')), 'Pcommit': lambda: conc_msg('Pcommit', P('', 'COMMIT')), 'Perror': lambda: conc_msg('Perror', P('', 'SELECT 1/0')),
        'Pset': lambda: conc_msg('Pset', P('', 'SET statement_timeout TO 5')),
+       'Pbig': lambda: conc_msg('Pbig', P('', 'SELECT bigrows')), 'Phuge': lambda: conc_msg('Phuge', P('', 'SELECT hugerow')),
        'P': lambda: conc_msg('P', P('', 'SELECT 1')), 'P2': lambda: conc_msg('P2', P('', 'SELECT 2')),
        'Ps1b': lambda: conc_msg('Ps1b', P('s1', 'SELECT 3')), 'Ps2': lambda: conc_msg('Ps2', P('s2', 'SELECT 2')), 'Cs2': lambda: conc_msg('Cs2', C('S', 's2')),
        'Pst1': lambda: conc_msg('Pst1', P('s1', 'SELECT * FROM t1')), 'Pst2': lambda: conc_msg('Pst2', P('s2', 'SELECT * FROM t2')), 'Bs2': lambda: conc_msg('Bs2', B('', 's2')),
